@@ -250,6 +250,20 @@ def finish(pid, violations, known, unconfirmed, vacuity=None):
     sys.exit(0)
 
 
+def run_regressions(pid, binp, scratch, test_run="TestSim", extra_env=None):
+    """Replay every committed regression file (earlier findings, seeded mutants that were caught) against the current tree."""
+    out = {"violations": [], "summary": {"replayed": 0, "reproduced": []}}
+    for n, path in enumerate(sorted(glob.glob(os.path.join(VERIF, "regress", pid, "*.json")))):
+        r = replay_once(binp, scratch, path, "reg%d" % n, test_run, extra_env)
+        out["summary"]["replayed"] += 1
+        if r.get("reproduced"):
+            f = json.load(open(path))
+            if match_known(pid, f) is None:
+                out["violations"].append((path, f))
+            out["summary"]["reproduced"].append(os.path.basename(path))
+    return out
+
+
 def check_sched(pid, spec, args):
     t0 = time.time()
     tier = args.tier
@@ -260,6 +274,7 @@ def check_sched(pid, spec, args):
         overlay, report = instrument(spec, scratch)
         binp = build_harness(spec, scratch, overlay)
         tb = time.time() - t0
+        regress = run_regressions(pid, binp, scratch)
         procs = spawn_workers(binp, spec, scratch, seed, budget, workers)
         sums, stuck = [], []
         for w, p in enumerate(procs):
@@ -279,6 +294,7 @@ def check_sched(pid, spec, args):
                   "seed": seed, "index": idx, "stuck": True}
             failures.append(fj)
         violations, known, unconfirmed = handle_failures_sched(pid, spec, failures, binp, scratch, seed)
+        violations = regress["violations"] + violations
         race = None
         if spec.get("race_probe") and not violations:
             race = race_probe(pid, spec, scratch, seed, args)
@@ -321,6 +337,7 @@ def check_sched(pid, spec, args):
             "stub_components": spec.get("stubs", []),
             "seed_range": "run index i uses splitmix(VERIF_SEED, i); indices 0..%d" % max([s.get("last_index", 0) for s in sums] + [0]),
             "known_findings_seen": [k["id"] for k, _ in known],
+            "regression_replays": regress["summary"],
             "unconfirmed_anomalies": len(unconfirmed),
         }
         zero_probes = [k for k in spec.get("expected_probes", []) if not (cov["probes"].get(k) or cov["counters"].get(k) or cov["faults_fired"].get(k))]
